@@ -17,16 +17,17 @@
 From Coq Require Import ZArith List Bool Arith.
 From PF Require Import Lib.ListX Lib.Calendar Model.Ragged.
 Import ListNotations.
+Local Open Scope nat_scope.
 
 (* ------------------------------------------------------------------------- *)
 (* Values *)
 
-Definition str := list nat.                      (* a Python str: its code points *)
+Definition str := list Z.                        (* a Python str: its code points *)
 
 Fixpoint str_eqb (a b : str) : bool :=
   match a, b with
   | [], [] => true
-  | x :: a', y :: b' => (x =? y) && str_eqb a' b'
+  | x :: a', y :: b' => (x =? y)%Z && str_eqb a' b'
   | _, _ => false
   end.
 
@@ -56,6 +57,9 @@ Section Series.
   Definition ser_values {C} (s : series C) : list C := map snd s.                       (* ser.values *)
   Definition ser_apply {C D} (f : C -> D) (s : series C) : series D :=                  (* ser.apply(f) *)
     map (fun p => (fst p, f (snd p))) s.
+  (* ser.apply(f) for an f that may raise: same labels, new values *)
+  Definition ser_apply_opt {C D} (f : C -> option D) (s : series C) : option (series D) :=
+    vals <- mapM f (ser_values s) ;; Some (combine (map fst s) vals).
 End Series.
 
 (* ser.reset_index(drop=True): labels become 0..n-1 *)
@@ -105,9 +109,9 @@ Definition categorical_forward {L} (cats : list pval) (s : @series L (option pva
 (* Python str.strip() / str.split(sep) / set() *)
 
 (* code points with str.isspace() *)
-Definition py_isspace (c : nat) : bool :=
-  ((9 <=? c) && (c <=? 13)) || ((28 <=? c) && (c <=? 32)) || (c =? 133) || (c =? 160) || (c =? 5760)
-  || ((8192 <=? c) && (c <=? 8202)) || (c =? 8232) || (c =? 8233) || (c =? 8239) || (c =? 8287) || (c =? 12288).
+Definition py_isspace (c : Z) : bool :=
+  (((9 <=? c) && (c <=? 13)) || ((28 <=? c) && (c <=? 32)) || (c =? 133) || (c =? 160) || (c =? 5760)
+   || ((8192 <=? c) && (c <=? 8202)) || (c =? 8232) || (c =? 8233) || (c =? 8239) || (c =? 8287) || (c =? 12288))%Z.
 
 Fixpoint lstrip (s : str) : str :=
   match s with
@@ -119,7 +123,7 @@ Definition py_strip (s : str) : str := rev (lstrip (rev (lstrip s))).
 Fixpoint is_prefix (p s : str) : bool :=
   match p, s with
   | [], _ => true
-  | x :: p', y :: s' => (x =? y) && is_prefix p' s'
+  | x :: p', y :: s' => (x =? y)%Z && is_prefix p' s'
   | _ :: _, [] => false
   end.
 
@@ -181,7 +185,7 @@ Definition multicategorical_forward {L} (cats : list pval) (sep : option str) (s
   : option (mnt Z) :=
   let s0 := reset_index s in
   let original_index := map fst s0 in
-  sets <- mapM (fun p => option_map (pair (fst p)) (split_by_sep (snd p) sep)) s0 ;;   (* ser.apply(split_by_sep) *)
+  sets <- ser_apply_opt (fun row => split_by_sep row sep) s0 ;;
   let exploded := explode sets in
   let merged := merge_left exploded (multicat_index cats) in
   let kept := filter (fun r => match r with (_, Some _, Some _) => true | _ => false end) merged in   (* .dropna() *)
